@@ -1,30 +1,333 @@
 package main
 
 import (
+	"encoding/json"
 	"fmt"
+	"os"
+	"path/filepath"
+	"regexp"
+	"sort"
+	"strings"
+	"time"
+
+	"gosym/interp"
 )
 
+// Finding is one entry of /verif/known_findings.json.
+type Finding struct {
+	Property string `json:"property"`
+	Status   string `json:"status"`  // known | fixed
+	Harness  string `json:"harness"` // regexp on harness name
+	Kind     string `json:"kind"`    // violation kind (assert|panic|deadlock|goroutine-panic|nontermination)
+	Label    string `json:"label"`   // regexp on assertion label / panic message
+	Site     string `json:"site"`    // regexp on "func site" of the failing instruction
+	Commit   string `json:"commit,omitempty"`
+	What     string `json:"what"`
+}
+
+func (f *Finding) matches(prop, harness string, v *interp.Violation) bool {
+	if f.Property != prop || f.Status != "known" {
+		return false
+	}
+	m := func(pat, s string) bool {
+		if pat == "" {
+			return true
+		}
+		ok, err := regexp.MatchString(pat, s)
+		return err == nil && ok
+	}
+	return m(f.Harness, harness) && (f.Kind == "" || f.Kind == v.Kind) && m(f.Label, v.Label) && m(f.Site, v.Func+" "+v.Site)
+}
+
+type violationReport struct {
+	Harness   string            `json:"harness"`
+	Params    map[string]int    `json:"params"`
+	ScaleSet  string            `json:"scale_set"`
+	Violation *interp.Violation `json:"violation"`
+	Replay    string            `json:"replay_file"`
+	Replayed  string            `json:"replay_outcome"` // reproduced | not-reproduced | skipped | build-failed
+	Known     string            `json:"known_finding,omitempty"`
+}
+
+func (d *driver) loadFindings() []Finding {
+	b, err := os.ReadFile(filepath.Join(d.verif, "known_findings.json"))
+	if err != nil {
+		return nil
+	}
+	var fs []Finding
+	if err := json.Unmarshal(b, &fs); err != nil {
+		fmt.Fprintf(os.Stderr, "gosym: known_findings.json: %v\n", err)
+		return nil
+	}
+	return fs
+}
+
 func (d *driver) report(all []*result, loadTime float64) int {
-	viol := 0
+	findings := d.loadFindings()
+	ev := map[string]any{}
+	states, transitions, traces := 0, 0, 0
+	var steps int64
+	solverTime := 0.0
+	unknowns := 0
+	var samples []any
+	var inconclusive []string
+	funcs := map[string]bool{}
+	reachedEnd := map[string]int{}
+	instancesPerHarness := map[string]int{}
+	pathsPerHarness := map[string]int{}
+	proved, concreteAsserts := 0, 0
+	exhausted := 0
+	var vreports []*violationReport
 	for _, r := range all {
 		res := r.res
-		fmt.Printf("%s %v paths=%d completed=%d exhausted=%v queries=%d steps=%d wall=%.2fs\n", res.Harness, res.Params, res.Paths, res.Completed, res.Exhausted, res.Queries, res.Steps, res.Wall)
+		states += res.Paths
+		transitions += res.Queries
+		steps += res.Steps
+		solverTime += res.SolverTime
+		unknowns += res.Unknowns
+		proved += res.AssertsProved
+		concreteAsserts += res.AssertsConcrete
+		if res.Exhausted {
+			exhausted++
+		}
+		instancesPerHarness[res.Harness]++
+		pathsPerHarness[res.Harness] += res.Completed
+		reachedEnd[res.Harness] += res.Reached["end"]
+		for f := range res.Funcs {
+			funcs[f] = true
+		}
 		for _, s := range res.Inconclusive {
-			fmt.Printf("   INCONCLUSIVE: %s\n", s)
+			msg := fmt.Sprintf("%s %v: %s", res.Harness, res.Params, s)
+			if len(msg) > 600 {
+				msg = msg[:600] + "..."
+			}
+			inconclusive = append(inconclusive, msg)
+		}
+		if len(samples) < 12 && res.SamplePath != nil {
+			samples = append(samples, map[string]any{"harness": res.Harness, "params": res.Params, "scale_set": r.scaleSet,
+				"paths": res.Paths, "queries": res.Queries, "decisions_of_first_completed_path": res.SamplePath})
 		}
 		for _, v := range res.Violations {
-			viol++
-			fmt.Printf("   violation %s %q at %s in %s\n", v.Kind, v.Label, v.Site, v.Func)
-			for _, in := range v.Inputs {
-				fmt.Printf("      %s = %d\n", in.Label, in.Value)
+			vreports = append(vreports, &violationReport{Harness: res.Harness, Params: res.Params, ScaleSet: r.scaleSet, Violation: v})
+		}
+	}
+	// expected-violation harnesses (vacuity witnesses) invert the meaning
+	expectViolation := map[string]bool{}
+	for _, h := range d.cfg.Harnesses {
+		if h.Expect == "violation" {
+			expectViolation[h.Name] = true
+		}
+	}
+	exit := 0
+	nViol, nKnown, nUnconfirmed := 0, 0, 0
+	witnessOK := map[string]bool{}
+	replayDir := filepath.Join(d.verif, "evidence", "replays")
+	os.MkdirAll(replayDir, 0o755)
+	var rp *replayer
+	knownPrinted := map[string]bool{}
+	for i, vr := range vreports {
+		if expectViolation[vr.Harness] {
+			witnessOK[vr.Harness] = true
+			continue
+		}
+		// write the replay file
+		name := fmt.Sprintf("%s_%s_%d.json", d.prop, vr.Harness, i)
+		path := filepath.Join(replayDir, name)
+		writeReplayFile(path, d.prop, vr)
+		vr.Replay = path
+		for fi := range findings {
+			if findings[fi].matches(d.prop, vr.Harness, vr.Violation) {
+				vr.Known = findings[fi].What
 			}
-			for _, t := range v.Trace {
-				fmt.Printf("      at %s\n", t)
+		}
+		if d.noReplay {
+			vr.Replayed = "skipped"
+		} else {
+			if rp == nil {
+				rp = newReplayer(d)
+			}
+			vr.Replayed = rp.replay(vr, d.ovFor(all, vr))
+		}
+		switch {
+		case vr.Replayed == "not-reproduced" || vr.Replayed == "build-failed":
+			nUnconfirmed++
+			fmt.Printf("UNCONFIRMED property=%s harness=%s kind=%s label=%q site=%s replay=%s (%s)\n", d.prop, vr.Harness, vr.Violation.Kind, vr.Violation.Label, vr.Violation.Site, path, vr.Replayed)
+		case vr.Known != "":
+			nKnown++
+			if !knownPrinted[vr.Known] {
+				knownPrinted[vr.Known] = true
+				fmt.Printf("KNOWN-FINDING: property=%s %s\n", d.prop, vr.Known)
+			}
+		default:
+			nViol++
+			exit = 1
+			fmt.Printf("VIOLATION property=%s replay=%s\n", d.prop, path)
+			fmt.Printf("  harness=%s params=%v kind=%s label=%q at %s in %s (replay: %s)\n", vr.Harness, vr.Params, vr.Violation.Kind, vr.Violation.Label, vr.Violation.Site, vr.Violation.Func, vr.Replayed)
+		}
+	}
+	if rp != nil {
+		traces += rp.runs
+		rp.cleanup()
+	}
+	// vacuity: every non-witness harness must complete at least one path reaching "end"
+	machinery := false
+	for h, n := range instancesPerHarness {
+		if expectViolation[h] {
+			if !witnessOK[h] {
+				fmt.Printf("BROKEN-CHECK: vacuity witness %s did not produce its expected violation\n", h)
+				machinery = true
+			}
+			continue
+		}
+		_ = n
+		if reachedEnd[h] == 0 && pathsPerHarness[h] == 0 {
+			hadViolation := false
+			for _, vr := range vreports {
+				if vr.Harness == h {
+					hadViolation = true
+				}
+			}
+			if !hadViolation {
+				fmt.Printf("BROKEN-CHECK: harness %s never ran to completion (vacuous)\n", h)
+				machinery = true
 			}
 		}
 	}
-	if viol > 0 {
-		return 1
+	for _, s := range inconclusive {
+		fmt.Printf("INCONCLUSIVE: %s\n", s)
 	}
-	return 0
+	var fl []string
+	for f := range funcs {
+		if strings.Contains(f, "itchio/wharf") && !strings.Contains(f, "zzverif") {
+			fl = append(fl, strings.ReplaceAll(f, "github.com/itchio/wharf/", ""))
+		}
+	}
+	sort.Strings(fl)
+	if len(fl) > 150 {
+		fl = append(fl[:150], fmt.Sprintf("... %d more", len(fl)-150))
+	}
+	var harnessBounds []any
+	for _, h := range d.cfg.Harnesses {
+		if instancesPerHarness[h.Name] > 0 {
+			harnessBounds = append(harnessBounds, map[string]any{"harness": h.Name, "instances": instancesPerHarness[h.Name],
+				"completed_paths": pathsPerHarness[h.Name], "bounds": h.Bounds, "scale_set": h.Scale, "note": h.Note, "param_grid": h.Params})
+		}
+	}
+	var scaled, missing []string
+	seenOv := map[*overlayInfo]bool{}
+	for _, r := range all {
+		if r.overlay != nil && !seenOv[r.overlay] {
+			seenOv[r.overlay] = true
+			scaled = append(scaled, r.overlay.scaled...)
+			missing = append(missing, r.overlay.missing...)
+		}
+	}
+	for _, m := range missing {
+		fmt.Printf("INCONCLUSIVE: scaling target missing: %s\n", m)
+	}
+	var vsum []any
+	for _, vr := range vreports {
+		if expectViolation[vr.Harness] {
+			continue
+		}
+		vsum = append(vsum, map[string]any{"harness": vr.Harness, "params": vr.Params, "kind": vr.Violation.Kind, "label": vr.Violation.Label,
+			"site": vr.Violation.Site, "func": vr.Violation.Func, "replay": vr.Replay, "replay_outcome": vr.Replayed, "known_finding": vr.Known})
+	}
+	if len(samples) == 0 {
+		samples = append(samples, map[string]any{"note": "no completed path"})
+	}
+	coverage := map[string]any{
+		"states":                        states,
+		"transitions":                   transitions,
+		"traces_validated_against_impl": traces,
+		"samples":                       samples,
+		"explanation": "states = complete symbolic paths explored (each path covers every input value satisfying its path condition); " +
+			"transitions = SMT queries discharged (branch feasibility, value enumeration, assertions); traces = native replays/differential runs",
+		"instances":                len(all),
+		"instances_exhausted":      exhausted,
+		"interpreted_instructions": steps,
+		"assertions_proved_unsat":  proved,
+		"assertions_concrete":      concreteAsserts,
+		"solver":                   d.solver + " (incremental) with one-shot fallback z3-new/cvc5/z3",
+		"solver_time_s":            round2(solverTime),
+		"solver_unknowns":          unknowns,
+		"inconclusive_items":       len(inconclusive),
+		"inconclusive":             truncList(inconclusive, 20),
+		"functions_encoded":        fl,
+		"harness_bounds":           harnessBounds,
+		"scaled_constants":         scaled,
+		"scaling_targets_missing":  missing,
+		"stubs":                    d.cfg.Stubs,
+		"outside_the_claim":        d.cfg.Outside,
+		"violations_detail":        vsum,
+		"known_findings_hit":       nKnown,
+		"unconfirmed":              nUnconfirmed,
+		"load_time_s":              round2(loadTime),
+		"exhaustive":               false,
+	}
+	ev["property_id"] = d.prop
+	ev["tier"] = d.tier
+	if d.tier != "quick" && d.tier != "thorough" {
+		ev["tier"] = "quick"
+	}
+	ev["seed"] = d.seed
+	ev["level"] = "model_checking"
+	ev["coverage"] = coverage
+	ev["assumptions"] = append([]string{
+		"bounded: only the instance grid listed under harness_bounds is covered; nothing is claimed outside it",
+		"environment models listed under stubs are part of the claim",
+		"SMT solver answers (z3 5.1.0 / cvc5 1.0 / z3 4.8.12) are trusted; any unknown/error is counted as inconclusive",
+		"go/ssa construction (x/tools v0.29.0) and the gosym interpreter semantics are trusted; checked by native replay of every counterexample",
+	}, d.cfg.Outside...)
+	ev["wall_s"] = round2(time.Since(d.start).Seconds())
+	ev["violations"] = nViol
+	os.MkdirAll(filepath.Join(d.verif, "evidence"), 0o755)
+	b, _ := json.MarshalIndent(ev, "", " ")
+	os.WriteFile(filepath.Join(d.verif, "evidence", d.prop+".json"), b, 0o644)
+	fmt.Printf("%s tier=%s: instances=%d paths=%d queries=%d proved-assertions=%d violations=%d known=%d unconfirmed=%d inconclusive=%d wall=%.1fs\n",
+		d.prop, d.tier, len(all), states, transitions, proved, nViol, nKnown, nUnconfirmed, len(inconclusive), time.Since(d.start).Seconds())
+	if machinery && exit == 0 {
+		return 2
+	}
+	return exit
+}
+
+func (d *driver) ovFor(all []*result, vr *violationReport) *overlayInfo {
+	for _, r := range all {
+		if r.scaleSet == vr.ScaleSet && r.overlay != nil {
+			return r.overlay
+		}
+	}
+	return nil
+}
+
+func truncList(l []string, n int) []string {
+	if len(l) > n {
+		return append(l[:n:n], fmt.Sprintf("... %d more", len(l)-n))
+	}
+	return l
+}
+
+func round2(f float64) float64 { return float64(int64(f*100+0.5)) / 100 }
+
+type replayJSON struct {
+	Harness   string             `json:"harness"`
+	Property  string             `json:"property"`
+	ScaleSet  string             `json:"scale_set"`
+	Params    map[string]int     `json:"params"`
+	Inputs    []interp.InputVal  `json:"inputs"`
+	Choices   []interp.ChoiceVal `json:"choices"`
+	Violation *interp.Violation  `json:"violation,omitempty"`
+}
+
+func writeReplayFile(path, prop string, vr *violationReport) {
+	rj := replayJSON{Harness: vr.Harness, Property: prop, ScaleSet: vr.ScaleSet, Params: vr.Params, Inputs: vr.Violation.Inputs, Choices: vr.Violation.Choices, Violation: vr.Violation}
+	if rj.Inputs == nil {
+		rj.Inputs = []interp.InputVal{}
+	}
+	if rj.Choices == nil {
+		rj.Choices = []interp.ChoiceVal{}
+	}
+	b, _ := json.MarshalIndent(rj, "", " ")
+	os.WriteFile(path, b, 0o644)
 }
